@@ -1054,10 +1054,6 @@ class Machine:
                 k0 = rest[1]
                 return self.fork_other(st, op, other, k0)
         self.split_cell_term(st, d)
-        import os
-        if os.environ.get("DBG_DECIDE"):
-            import traceback; traceback.print_stack(limit=8)
-            print("DECIDE", op, d, "bounds", lo, hi, "chain", st.chain, st.gaps, st.cur_gap, "ahead", st.ahead, st.run, "tape", st.tape, st.eof, "facts", st.facts)
         raise Unanalysable("cannot decide %s on symbolic integers %s" % (op, self.show_sym(d)))
 
     def split_cell_term(self, st, v):
@@ -1374,8 +1370,11 @@ class Machine:
                 else:
                     nlen = mk_int(to - frm, pb)
                 summ = loc[3]
-                if summ is not None and summ[0] in ("reg", "const"):
-                    summ = ("reg", summ[1] if summ[0] == "reg" else FULL, FULL, None)
+                if summ is not None and summ[0] == "reg":
+                    # a sub-range: content is a subset; the first byte is the same when nothing is cut at the front
+                    summ = ("reg", summ[1], summ[2] if frm == 0 else FULL, None)
+                elif summ is not None and summ[0] == "const":
+                    summ = ("reg", FULL, FULL, None)
                 elif summ is not None and summ[0] != "ahead":
                     summ = None
                 loc = ("U", base, nlen, summ)
